@@ -19,7 +19,7 @@ RULE = ('per case one security configuration (COSE_Mac0 with HMAC-256/384/512, o
         'suppression cannot explain non-delivery. The reference decoder classifies each copy as covered / surely-uncovered / other. '
         'One evaluation = one altered reception; distinct = (configuration digest, alteration).')
 COMPONENTS = bc.COMPONENTS
-PROBES = ('class.covered', 'class.uncovered', 'class.other', 'kind.mac0', 'kind.sign1', 'kind.foreign', 'kind.split_assoc', 'alt.bitflip', 'alt.field', 'alt.wrong-key',
+PROBES = ('class.covered', 'class.uncovered', 'class.other', 'kind.mac0', 'kind.sign1', 'kind.foreign', 'kind.two_bib', 'kind.split_assoc', 'alt.bitflip', 'alt.field', 'alt.wrong-key',
           'alt.missing-key', 'cov.primary', 'cov.target-btsd', 'cov.target-meta', 'cov.source', 'cov.scope', 'cov.tag', 'cov.cose-protected')
 ASSUMPTIONS = ['schedules and clocks play no role: the deciding dimension is the corruption fault and the key / scope configuration',
                'COSE_Mac / COSE_Encrypt with wrapped content keys need the pycose fork pinned in pyproject.toml; upstream pycose 1.1.0 installed here raises in those paths, so they are not exercised',
@@ -33,7 +33,13 @@ WATCHDOG_S = 900
 
 
 def gen(ch, tier):
-    kind = ch.choice('kind', ('mac0-256', 'mac0-384', 'mac0-512', 'foreign', 'foreign', 'mac0-256', 'sign1-chain', 'sign1-chain'))
+    kind = ch.choice('kind', ('mac0-256', 'mac0-384', 'mac0-512', 'foreign', 'foreign', 'mac0-256', 'sign1-chain', 'sign1-chain', 'two-bib'))
+    if kind == 'two-bib':
+        # two integrity blocks from two security sources (the source and a gateway), each over its own target, in either block order
+        return dict(scenario='bpsec_bib', kind=kind, plen=ch.choice('plen', (1, 8, 40)), tgt_ext=False, others=ch.weighted('others', (2, 3, 1)),
+                    pri_crc=ch.choice('pc', (0, 0, 2, 1)), blk_crc=ch.choice('bc', (0, 0, 1, 2)), window=0, wsize=0, accept=ch.coin('accept', 2, 3),
+                    fixup=True, dst_key='right', order=ch.choice('order', ('payload-first', 'ext-first')),
+                    scope=ch.choice('scope', ([[0, 1], [-1, 1]], [[0, 1], [-1, 1], [-2, 1]], [[-1, 1]])))
     plan = dict(scenario='bpsec_bib', kind=kind, plen=ch.choice('plen', (1, 8, 40)), tgt_ext=ch.coin('tgtext', 1, 3),
                 others=ch.weighted('others', (2, 3, 1)), pri_crc=ch.choice('pc', (0, 0, 2, 1)), blk_crc=ch.choice('bc', (0, 0, 1, 2)),
                 window=ch.pick('window', 1 << 16), wsize=24 if tier == 'quick' else 96, accept=ch.coin('accept', 1, 2),
@@ -293,7 +299,62 @@ def field_alterations(orig, plan):
     return alts
 
 
+EXT_TWO = b'\x4cSECOND-TARGET'
+
+
+def make_two(plan, index):
+    ''' Reference-built bundle with two integrity blocks: one of the source over the payload (key mac256), one of a gateway over an
+    extension block (key mac384). '''
+    seqno = seq_code(index)
+    payload = bc.body(seqno, plan['plen'])
+    pri = dict(flags=0, crc_type=plan['pri_crc'], destination='dtn://d/app', source='dtn://s/', report_to='dtn:none',
+               create_time=820000000000, seqno=seqno, lifetime=3600000)
+    scope = {key: val for (key, val) in plan['scope']}
+    others = [dict(type=193, num=5 + ix, flags=ix & 1, crc_type=plan['blk_crc'], btsd=b'\x44OTH' + bytes([0x30 + ix])) for ix in range(plan['others'])]
+    pay = dict(type=1, num=1, flags=0, crc_type=plan['blk_crc'], btsd=payload)
+    ext = dict(type=192, num=4, flags=0, crc_type=plan['blk_crc'], btsd=EXT_TWO)
+    bib_a = bpsec_cose.make_bib(pri, pay, sc.RAW_KEYS[b'mac256'], b'mac256', num=2, alg=5, scope=scope, source='dtn://s/', crc_type=plan['blk_crc'])
+    bib_b = bpsec_cose.make_bib(pri, ext, sc.RAW_KEYS[b'mac384'], b'mac384', num=3, alg=6, scope=scope, source='dtn://gw/', crc_type=plan['blk_crc'])
+    secs = [bib_a, bib_b] if plan['order'] == 'payload-first' else [bib_b, bib_a]
+    return (rfc9171.encode_bundle(pri, secs + [ext] + others + [pay]), payload)
+
+
+def _drive_two(run, plan, har):
+    stats = run.stats
+    cfg = bc.digest({key: plan[key] for key in ('kind', 'plen', 'others', 'pri_crc', 'blk_crc', 'accept', 'order', 'scope')})
+    stats['kind.two_bib'] = 1
+    cases = [('unmodified', None), ('payload-data', 1), ('ext-data', 4), ('unmodified-again', None), ('ext-data-first-octet', 4)]
+    for (index, (name, tnum)) in enumerate(cases):
+        (copy, payload) = make_two(plan, index)
+        orig = rfc9171.decode_bundle(copy)
+        if tnum is not None:
+            tgt = [blk for blk in orig['blocks'] if blk['num'] == tnum][0]
+            new = (tgt['btsd'][:-1] + bytes([tgt['btsd'][-1] ^ 0x01])) if not name.endswith('first-octet') else (bytes([tgt['btsd'][0]]) + bytes([tgt['btsd'][1] ^ 0x20]) + tgt['btsd'][2:])
+            copy = rfc9171.reencode(orig, {}, {tnum: dict(btsd=new)})
+            stats['alt.field'] = stats.get('alt.field', 0) + 1
+            stats['class.covered'] = stats.get('class.covered', 0) + 1
+            stats['cov.target-btsd'] = stats.get('cov.target-btsd', 0) + 1
+        stats['evals'] += 1
+        run.keys.append((cfg, name))
+        (rec, dels, _outs) = sc.deliver(har, copy)
+        where = '%s, two integrity blocks (%s), accept %s' % (name, plan['order'], plan['accept'])
+        if tnum is None:
+            if len(dels) != 1 or dels[0]['payload'] != payload:
+                run.viols.append(('unmodified', 'not-delivered-two-bib', 'an unmodified bundle with two integrity blocks was not delivered intact (deliveries %d, actions %s reason %s error %s)' % (
+                    len(dels), rec['actions'], rec['reason'], rec['error'])))
+                return
+        else:
+            if dels:
+                run.viols.append(('covered', 'delivered:cov.target-btsd/two-bib', 'delivered although the target of one of two integrity blocks was altered (%s)' % where))
+                return
+            if rec['error'] is None and ('delete' not in (rec['actions'] or []) or rec['reason'] not in (12, 13, 14, 15, 16)):
+                run.viols.append(('covered', 'no-security-failure:two-bib', 'not delivered but no security failure recorded: actions %s reason %s (%s)' % (rec['actions'], rec['reason'], where)))
+                return
+
+
 def _drive(run, plan, har):
+    if plan['kind'] == 'two-bib':
+        return _drive_two(run, plan, har)
     stats = run.stats
     cfg = bc.digest({key: plan[key] for key in ('kind', 'plen', 'tgt_ext', 'split_assoc', 'others', 'pri_crc', 'blk_crc', 'dst_key', 'accept', 'cert') if key in plan} | {'scope': plan.get('scope')})
     kindtag = 'kind.' + ('mac0' if plan['kind'].startswith('mac0') else ('sign1' if plan['kind'].startswith('sign1') else (
